@@ -112,18 +112,18 @@ func SpecReplyTruth(reply interface{}) bool { panic("abstract spec function") }
 //@   assert at call Send: value_is_written_to_the_key_the_policy_examined: SpecNativeKeyIndex(cmd) < len(args) ==> args[SpecNativeKeyIndex(cmd)] == dyn(e.Key)
 
 // skips: the replay remembers that the value of this key is being ignored (policy "ignore")
-//@ pred skips(rr, key): rr.skippedKey != nil && len(rr.skippedKey) == len(key) && forall i int :: 0 <= i && i < len(key) ==> rr.skippedKey[i] == key[i]
+//@ pred skips(rr, key): rr.skipping && len(rr.skippedKey) == len(key) && forall i int :: 0 <= i && i < len(key) ==> rr.skippedKey[i] == key[i]
 
 //@ func body:RdbReplay.Replay
 //@   arith int
 //@   properties C20
-//@   replay rdbrestore_Replay
+//@   replay rdbrestore_Replay rdbrestore_badDataFallback rdbrestore_emptyKeySplit
 //@   ghost var probed mathint = 0 - 1
 //@   ghost var expanded mathint
 //@   ghost var nDel mathint
 //@   ghost var nPexpire mathint
 //@   requires nonnil: rr != nil && e != nil && rr.Client != nil && e.ObjectParser != nil
-//@   modifies e.Key, rr.skippedKey, probed, expanded, reqs, lastCmd, lastNArgs, lastA1, lastA2, lastA3, lastA4, lastReply, nDel, nPexpire
+//@   modifies e.Key, rr.skippedKey, rr.skipping, probed, expanded, reqs, lastCmd, lastNArgs, lastA1, lastA2, lastA3, lastA4, lastReply, nDel, nPexpire
 //@   set probed = ite(exist, 1, 0) after store exist
 //@   set probed = ite(err#2 != nil, 0 - 1, probed) after store err#2
 //@   ensures ignore_keeps_existing_key: probed == 1 && rr.KeyExists == "ignore" ==> err == nil && expanded == old(expanded) && nPexpire == old(nPexpire) && nDel == old(nDel)
